@@ -235,10 +235,31 @@ func registerModels(e *Engine) {
 	// hex 0.05 / decimal 1.0 makes Ident choose u0x, hex 0.99 makes it choose
 	// decimal, whatever the digit count.)
 	ic["github.com/llir/llvm/ir/constant.hexEntropy"] = func(e *Engine, st *State, fr *Frame, in ssa.CallInstruction, a []Val) Val {
+		// the heuristic is a function of the value: a value that provably equals
+		// one seen earlier on this path gets the same answer
+		x := e.bigGet(st, a[0])
+		for _, m := range st.entropy {
+			if m.t == x {
+				return ConstF64(m.f)
+			}
+		}
+		for _, m := range st.entropy {
+			if r := e.sol.Check(st.pc, Not(Eq(m.t, x))); r == "unsat" {
+				e.sol.Done()
+				return ConstF64(m.f)
+			}
+			e.sol.Done()
+		}
 		site := fmt.Sprintf("entropy#%d", st.siteCtr)
 		c := e.choose(st, site, 2)
 		st.siteCtr++
 		st.approx = true
+		f := 0.05
+		if c != 0 {
+			f = 0.99
+		}
+		st.entropy = append(st.entropy[:len(st.entropy):len(st.entropy)], entropyMemo{x, f})
+		return ConstF64(f)
 		if c == 0 {
 			return ConstF64(0.05)
 		}
@@ -268,8 +289,18 @@ func registerModels(e *Engine) {
 			bits = 64
 		}
 		e.models["strconv.ParseUint (model for symbolic strings longer than 6 bytes, base 10/16)"]++
+		// a real *strconv.NumError (callers type-assert it), Err = the sentinel
+		numErr := func(sentinel string) Val {
+			sp := e.prog.ImportedPackage("strconv")
+			nt := sp.Type("NumError").Type()
+			z := e.zero(nt).(StructVal)
+			z.f[0] = constStr("ParseUint")
+			z.f[1] = s
+			z.f[2] = e.load(st, e.globalPtr(st, sp.Var(sentinel)).(PtrVal))
+			return IfaceVal{t: types.NewPointer(nt), v: PtrVal{obj: st.alloc(z)}}
+		}
 		errRes := func(kind string) Val {
-			return TupleVal{[]Val{ConstBV(64, 0), opaqueErrNamed(st, "strconv.ParseUint: "+kind)}}
+			return TupleVal{[]Val{ConstBV(64, 0), numErr("ErrSyntax")}}
 		}
 		valid := True
 		const W = 160
@@ -287,7 +318,7 @@ func registerModels(e *Engine) {
 		}
 		lim := new(big.Int).Lsh(big.NewInt(1), uint(bits))
 		if !e.decide(st, BvCmp("bvult", sum, ConstBVBig(W, lim))) {
-			return TupleVal{[]Val{ConstBV(64, mask(bits)), opaqueErrNamed(st, "strconv.ParseUint: value out of range")}}
+			return TupleVal{[]Val{ConstBV(64, mask(bits)), numErr("ErrRange")}}
 		}
 		return TupleVal{[]Val{Extract(63, 0, sum), IfaceVal{}}}
 	}
